@@ -571,6 +571,16 @@ def _gen_office():
         out["gen/nopath-nocore-b.pptx"] = ooxml.render_pptx(doc(14), opts={"no_core": True})
         out["gen/nocore-a.docx"] = ooxml.render_docx(doc(15), opts={"no_core": True})
         out["gen/nopath-nocore-b.docx"] = ooxml.render_docx(doc(16), opts={"no_core": True})
+        # two books with long chapters, and pairs of the other HTML-family formats: several extractions of one format in flight at the same time
+        from vf.gen import simple
+
+        def long_doc(n):
+            return {"units": [{"name": None, "blocks": [{"k": "p", "inl": [{"k": "t", "tok": make("B", 7600 + n * 1000 + i), "sty": i % 3}], "h": None} for i in range(300)], "notes": None} for _ in range(2)],
+                    "props": {}, "header": None, "footer": None, "comments": []}
+        out["gen/long-a.epub"] = simple.render_epub(long_doc(1))
+        out["gen/long-b.epub"] = simple.render_epub(long_doc(2))
+        out["gen/long-a.html"] = simple.render_html(long_doc(3))
+        out["gen/long-b.html"] = simple.render_html(long_doc(4))
         out["gen/nopath-plain.docx"] = ooxml.render_docx(doc(11))
         out["gen/nopath-plain.pptx"] = ooxml.render_pptx(doc(12))
     except Exception as e:  # noqa
@@ -897,6 +907,13 @@ def stress_shard(ctx: Ctx):
 
         n = ctx.n(24, 600) // ctx.nshards + 1
         hyp_search(ctx, "stress", st.lists(st.sampled_from(light), min_size=8, max_size=32), ev, n, part, model_shrink=False, shrink_budget_s=30)
+        # several extractions of ONE format in flight at the same time (a parser or table shared by all calls of one extractor shows only then)
+        by_ext = {}
+        for x in light:
+            by_ext.setdefault(ext_of(x), []).append(x)
+        groups = [v for k, v in sorted(by_ext.items()) if len(v) >= 2 and env.base[v[0]].startswith("ok:")]
+        same = st.sampled_from(groups).flatmap(lambda g: st.lists(st.sampled_from(g), min_size=8, max_size=16))
+        hyp_search(ctx, "stress-one-format", same, ev, max(6, n), part, model_shrink=False, shrink_budget_s=30)
         # several threads inside the pure-python AES at the same time (the code with the most module-level state per byte)
         aes = [x for x in env.names if x.startswith("gen/aes") or x in ("gen/rc4-empty.pdf", "gen/cid-a.pdf", "gen/cid-b.pdf")]
         hyp_search(ctx, "stress-aes", st.lists(st.sampled_from(aes), min_size=8, max_size=16), ev, max(3, n // 2), part, model_shrink=False, shrink_budget_s=30)
